@@ -108,7 +108,7 @@ def run(P, R, tier):
     assigned = {t.attr for st, t, v, k in stores(f) if isinstance(t, ast.Attribute) and isinstance(t.value, ast.Name)}
     for fld in flds:
         R.check(fld in assigned, "FIELDS.e_step", f.key, f"statistics.{fld} assigned", "", f"the E-step never assigns statistic {fld}: it stays at its zero initial value")
-    n, rets = dimrun.route(P, R, ["gmm.e_step", "gmm.acc_stats"], rules=["DIM.", "EXT."], where_prefix=["gmm:e_step", "gmm:log", "gmm:reduce"], exclude_rules=["DIM.CONST"])
+    n, rets = dimrun.route(P, R, ["gmm.e_step", "gmm.e_step1", "gmm.acc_stats"], rules=["DIM.", "EXT."], where_prefix=["gmm:e_step", "gmm:log", "gmm:reduce"], exclude_rules=["DIM.CONST"])
     R.floor("DIM/EXT obligations (E-step)", n, 8)
     check_responsibility(P, R)
     check_fold(P, R)
